@@ -165,3 +165,12 @@ M += [
      "                adp = [self.remove_esd(cifblk['_atom_site_aniso_U_' + ij][anisonumber]) for ij in ('11', '22', '33', '12', '13', '23')]", None, "violation", "C17:cif:Uani"),
     ("C19", P, "        self.varylist = vl", "        self.varylist = [v for v in self.variable_list if v in vl]", None, "violation", "C19:vary:set_varylist"),
 ]
+
+# ---------------------------------------------------------------- renaming of locals must stay silent (structural patterns bind names)
+M += [
+    ("C06", T, "HLAST", "hlast", "all", "silent", ""),
+    ("C06", L, "sintlH", "s_cur", "all", "silent", ""),
+    ("C05", T, "Rots", "ops", "all", "silent", ""),
+    ("C05", L, "refl", "row", "all", "silent", ""),
+    ("C05", T, "spg", "grp", "all", "silent", ""),
+]
